@@ -34,6 +34,7 @@ class UnionOccupationTarget(DiscreteTarget):
             default_stat=self.default_stat,
             damage_logic=self.damage_logic,
             union_occupation_prototype=self._union_occupation_prototype,
+            armor=self.armor,
         )
         target.set_state(self.state)
 
